@@ -549,7 +549,7 @@ theorem constMul_spec {c : MontCfg} {pv : Nat} (h : CfgOK c pv) {a b : List Nat}
   apply finalSub_spec h s1 _ s2
   rw [s3, Nat.add_mul_mod_self_right]
 
-theorem mul_spec {c : MontCfg} {pv : Nat} (h : CfgOK c pv) {a b : List Nat}
+theorem montMul_spec {c : MontCfg} {pv : Nat} (h : CfgOK c pv) {a b : List Nat}
     (ha : Elem c pv a) (hb : Limbs c b) :
     Elem c pv (Mont.mul c a b) ∧
     (value (Mont.mul c a b) * B ^ c.n) % pv = (value a * value b) % pv := by
